@@ -27,7 +27,8 @@ RULE = ('responder side: threshold T in {0,1,3}, h = 0..T+3 half-open IKE_SAs cr
         'SA/KE/Nr response. Initiator side: a real initiator against a responder that always demands a cookie (once, and twice '
         'with a rotated secret): each retry, decoded by the reference, equals the original request with the newest cookie '
         'notification prepended, Message ID 0, and the handshake completes. Non-trivial = the request reaches the cookie '
-        'check with more than T half-open IKE_SAs, or an initiator retry happens; distinct by (T, h, variant).')
+        'check with more than T half-open IKE_SAs, or an initiator retry happens; distinct by (T, h, variant). '
+        'Initiator cases continue after the cookie round with rekeys by either end and new CHILD_SAs: they complete and no exchange other than IKE_SA_INIT carries a COOKIE notification.')
 ASSUMPTIONS = [
     'the cookie secret is read from the controller object to recompute the expected value',
     'whether a cookie is demanded at exactly T half-open IKE_SAs is not asserted (the statement says "exceeds")',
@@ -294,6 +295,26 @@ def initiator_case(case):
     s.drain(settle=False)
     if not s.established('a') or not s.established('b'):
         s.fail('cookie-handshake-incomplete', f'after {len(cookies)} COOKIE challenge(s) the handshake did not complete')
+        return s.fails, info, s
+    # "... and then completes normally": the IKE_SA that was set up through the cookie round behaves like any other afterwards.
+    # Cookies belong to IKE_SA_INIT only: no later exchange of it (CHILD_SA creation, rekeys by either end) is answered COOKIE
+    n_log = len(s.w.sent_log)
+    for op in case.get('after', []):
+        s.apply(op)
+        s.flush()
+    s.drain(settle=False)
+    if case.get('after'):
+        info['after'] = True
+        ob = s.observer()
+        for d in s.w.sent_log[n_log:]:
+            dec = ob.decoded.get(d.id)
+            if dec is not None and dec[1]['exchange'] != 34 and W.find(dec[1]['inner'], 'NOTIFY', W.N['COOKIE']):
+                s.fail('cookie-outside-ike-sa-init', f'a {SM.W_EXCH.get(dec[1]["exchange"])} '
+                                                     f'{"response" if dec[1]["flags"]["response"] else "request"} of the IKE_SA set up '
+                                                     f'through a cookie round carries a COOKIE notification')
+        if not s.established('a') or not s.established('b') or not s.same_ike_sas():
+            s.fail('cookie-ike-sa-not-normal-afterwards', f'after {case["after"]} on the IKE_SA set up through a cookie round the '
+                                                          f'endpoints hold a={s.ike_sa_set("a")} b={s.ike_sa_set("b")}')
     return s.fails, info, s
 
 
@@ -308,8 +329,9 @@ def body(case, stats):
               'cookie-demanded' if info['reached'] else 'no-cookie-demanded']
         fp = [case['T'], case['h'], case['variant'], case.get('k', 0) % 8, case.get('req_kind', 'normal'), bool(case.get('other_peer'))]
     else:
-        kl = [f'initiator:rounds={case["rounds"]}', f'initiator:requests={info["requests"]}']
-        fp = ['init', case['rounds'], case.get('dh_mismatch')]
+        kl = [f'initiator:rounds={case["rounds"]}', f'initiator:requests={info["requests"]}'] + \
+             (['initiator:then:' + '+'.join(f'{o[0]}@{o[1]}' for o in case['after'])] if case.get('after') else [])
+        fp = ['init', case['rounds'], case.get('dh_mismatch'), case.get('after')]
     stats.case(common.jhash(fp), nontrivial=info['reached'], klass=kl, sample=case)
     for f in fails:
         f.case = case
@@ -335,7 +357,13 @@ def all_cases():
     for rounds in (1, 2, 3):
         for mm in (False, True):
             out.append({'kind': 'initiator', 'rounds': rounds, 'dh_mismatch': mm})
+            for after in AFTER:
+                out.append({'kind': 'initiator', 'rounds': rounds, 'dh_mismatch': mm, 'after': after})
     return out
+
+
+AFTER = [[['rekey_ike', 'a', 0]], [['rekey_ike', 'b', 0]], [['acquire', 'b', 0, 2]], [['acquire', 'a', 0, 3], ['rekey_ike', 'a', 0]],
+         [['rekey_ike', 'a', 0], ['rekey_ike', 'b', 0]], [['rekey_ike', 'b', 0], ['rekey_ike', 'a', 0]]]
 
 
 def enum_worker(chunk):
@@ -353,7 +381,8 @@ def enum_worker(chunk):
 @st.composite
 def cases(draw):
     if draw(st.integers(0, 5)) == 0:
-        return {'kind': 'initiator', 'rounds': draw(st.integers(1, 4)), 'dh_mismatch': draw(st.booleans())}
+        return {'kind': 'initiator', 'rounds': draw(st.integers(1, 4)), 'dh_mismatch': draw(st.booleans()),
+                'after': draw(st.sampled_from([[]] + AFTER))}
     T = draw(st.sampled_from([0, 1, 2, 3, 5]))
     return {'kind': 'responder', 'T': T, 'h': draw(st.integers(0, T + 3)), 'variant': draw(st.sampled_from(VARIANTS)),
             'k': draw(st.integers(0, 255)), 'other_peer': draw(st.integers(0, 3)) == 0, 'req_kind': draw(st.sampled_from(['normal', 'normal', 'normal', 'other_group',
